@@ -136,6 +136,16 @@ def c01_wedge_gen(rng, tier):
             reply = struct.pack(">HHHHHH", 0, 0x8180, 1, 1, 0, 0) + name + b"\0" + struct.pack(">HH", 1, 1) + \
                 b"\xc0\x0c" + struct.pack(">HHIH", 1, 1, 60, 4) + bytes([10, 0, 0, 1])
             out.append("wh%d cfg=%s l=%s mode=httpraw bad=%s q=%s up=reply:%s" % (i, cfg, l, gens.hx(raw), gens.hx(q), gens.hx(reply)))
+    # a valid query from UDP SOURCE PORT 0 (raw socket): its response cannot be sent (sendmsg: EINVAL); the listener
+    # must go on serving the next client (seeds C03-E / C01-R: the write mutex stayed locked on the error path)
+    for j in range(3):
+        i = n + 7000 + j
+        name = gens.raw_name([b"okp%d" % i, b"test"])
+        q = struct.pack(">HHHHHH", rng.randrange(65536), 0x0100, 1, 0, 0, 0) + name + b"\0" + struct.pack(">HH", 1, 1)
+        reply = struct.pack(">HHHHHH", 0, 0x8180, 1, 1, 0, 0) + name + b"\0" + struct.pack(">HH", 1, 1) + \
+            b"\xc0\x0c" + struct.pack(">HHIH", 1, 1, 60, 4) + bytes([10, 0, 0, 1])
+        pq = struct.pack(">HHHHHH", rng.randrange(65536), 0x0100, 1, 0, 0, 0) + gens.raw_name([b"p0x%d" % i, b"test"]) + b"\0" + struct.pack(">HH", 1, 1)
+        out.append("wp%d cfg=%s l=udp mode=port0 bad=%s q=%s up=reply:%s" % (i, cfg, gens.hx(pq), gens.hx(q), gens.hx(reply)))
     # a DoH GET parameter whose base64 text carries percent-encoded line breaks: Go's base64 decoder skips CR / LF, so
     # the decoded message is SHORTER than DecodedLen of the text; a query that is cut short (its last 1..4 octets missing)
     # cannot be decoded and must be rejected with 400 - not completed with whatever the recycled buffer held (defect D24)
